@@ -9,6 +9,7 @@ from mirsym.models_std import box
 from mirsym.models_http import (header_value, header_map, mt_name, name_code, media_type)
 from mirsym.values import Agg, Enum, Ptr, Seq, BStr, UNIT, Panic, Unwind, bv, bstr, concrete, is_abnormal
 from mirsym.harness import Decider, finish_engine, replay, find_fn, sym_str, model_bytes
+from vlib.par import run_parallel
 
 ENC = 'conjure_http::server::encoding::'
 TYPES = ['application', 'text', '*']
@@ -207,9 +208,14 @@ def report_quality(rep, qb, what):
 def run_response(rep, prog, R, QK):
     fn = find_fn(prog, 'response_body_encoding', inpath='::server::runtime::')
     shapes = list(itertools.product([False, True], repeat=2))            # (has q, has charset) per range: concrete list shapes
-    total = 0
-    for order in (['JsonEncoding', 'SmileEncoding'], ['SmileEncoding', 'JsonEncoding']):
-        for shp in itertools.product(shapes, repeat=R):
+    from mirsym.harness import replay_binary
+    replay_binary()          # built once before the configurations fan out over processes
+    jobs = [(order, shp) for order in (['JsonEncoding', 'SmileEncoding'], ['SmileEncoding', 'JsonEncoding']) for shp in itertools.product(shapes, repeat=R)]
+
+    def worker(rep, job):
+        order, shp = job
+        total = 0
+        if True:
             it = Interp(prog, models_std.MODELS + models_http.MODELS, {}, unwind=R + 8, merge=MERGE)
             it.ext_consts.update(models_http.CONSTS)
             dec = Decider(rep, it)
@@ -263,7 +269,8 @@ def run_response(rep, prog, R, QK):
                 if m is not None:
                     report_response(rep, m, rg, shp, order, n_hdr, 'chosen encoding differs from the one the statement prescribes')
             finish_engine(rep, it)
-    rep.extra['response_paths'] = total
+        rep.extra['response_paths'] = total
+    run_parallel(rep, jobs, worker)
     # reachability twin, replayed natively
     r = replay([{'op': 'negotiate', 'accept': ['application/json;q=0.5, application/x-jackson-smile;q=0.9, */*;q=0.1'], 'order': ['json', 'smile']},
                 {'op': 'negotiate', 'accept': ['application/json;q=0'], 'order': ['json']},
